@@ -19,7 +19,7 @@ Definition ndiff (a b : nset) : nset := filter (fun x => negb (nmem x b)) a.
 Definition nsubset (a b : nset) : bool := forallb (fun x => nmem x b) a.
 Definition nequiv (a b : nset) : bool := nsubset a b && nsubset b a.
 
-Definition all_kinds : list epkind := [KWlFrom; KWlTo; KHostFrom; KHostTo; KHostFromFwd; KHostToFwd].
+Definition all_kinds : list epkind := [KWlFrom; KWlTo; KHostFrom; KHostTo; KHostFromFwd; KHostToFwd; KSetMark].
 Definition kset := epkind -> bool.
 Definition kempty : kset := fun _ => false.
 Definition upd {A} (f : epkind -> A) (k : epkind) (v : A) : epkind -> A :=
